@@ -63,7 +63,7 @@ def verdict (ys : List Yield) : String :=
     | .item (.record _ r) :: rest =>
       if !vNameAll r.owner then some "bad:owner"
       else if r.ty == 10 || r.ty == 41 || r.ty == 250 then some "bad:type"
-      else if !validate r.cls r.ty r.rdata then some "bad:rdata"
+      else if !(validate r.cls r.ty r.rdata).isOk then some "bad:rdata"
       else go rest
   match go ys with
   | none => "ok"
